@@ -336,32 +336,13 @@ func judgeC14(in []byte, _ string, _ int) string {
 		if strings.ReplaceAll(render(bytes.ReplaceAll(in, []byte("\n"), []byte("\r")), true), "\r", "\n") != h {
 			return "C14-cr"
 		}
-		// the same through the streaming entry point, delivered one byte at a time
-		crlf := bytes.ReplaceAll(in, []byte("\n"), []byte("\r\n"))
-		if len(crlf) < 400 {
-			rd := &scriptReader{data: append([]byte(nil), crlf...), final: io.EOF}
-			for i := 0; i < len(crlf)+2; i++ {
-				rd.caps = append(rd.caps, 1)
-			}
-			p := cm.NewBlockParser(rd)
-			var sb []*cm.RootBlock
-			for {
-				b, err := p.NextBlock()
-				if err != nil {
-					break
+		// the same through the streaming entry point, delivered one byte at a time (every Read ends right after a CR at some point)
+		for _, v := range []struct{ eol, sig string }{{"\r\n", "C14-crlf-stream"}, {"\r", "C14-cr-stream"}} {
+			doc := bytes.ReplaceAll(in, []byte("\n"), []byte(v.eol))
+			if len(doc) < 400 {
+				if strings.ReplaceAll(renderStreamOneByte(doc), v.eol, "\n") != h {
+					return v.sig
 				}
-				sb = append(sb, b)
-			}
-			refs := make(cm.ReferenceMap)
-			for _, b := range sb {
-				refs.Extract(b.Source, b.AsNode())
-			}
-			ip := &cm.InlineParser{ReferenceMatcher: refs}
-			for _, b := range sb {
-				ip.Rewrite(b)
-			}
-			if strings.ReplaceAll(renderBlocks(sb, refs, true), "\r\n", "\n") != h {
-				return "C14-crlf-stream"
 			}
 		}
 	}
@@ -392,6 +373,37 @@ func judgeC14(in []byte, _ string, _ int) string {
 		}
 	}
 	return ""
+}
+
+// renderStreamOneByte parses doc through NewBlockParser under one-byte reads, then Extract + Rewrite, and renders in safe mode.
+func oneByteBlocks(doc []byte) []*cm.RootBlock {
+	rd := &scriptReader{data: append([]byte(nil), doc...), final: io.EOF}
+	for i := 0; i < len(doc)+2; i++ {
+		rd.caps = append(rd.caps, 1)
+	}
+	p := cm.NewBlockParser(rd)
+	var sb []*cm.RootBlock
+	for {
+		b, err := p.NextBlock()
+		if err != nil {
+			break
+		}
+		sb = append(sb, b)
+	}
+	return sb
+}
+
+func renderStreamOneByte(doc []byte) string {
+	sb := oneByteBlocks(doc)
+	refs := make(cm.ReferenceMap)
+	for _, b := range sb {
+		refs.Extract(b.Source, b.AsNode())
+	}
+	ip := &cm.InlineParser{ReferenceMatcher: refs}
+	for _, b := range sb {
+		ip.Rewrite(b)
+	}
+	return renderBlocks(sb, refs, true)
 }
 
 // ---- C16 ----
@@ -433,6 +445,19 @@ func judgeC16(in []byte, _ string, _ int) string {
 		dumpNode(&b, got[0].Source, got[0].AsNode())
 		if a.String() != b.String() || !bytes.Equal(rb.Source, got[0].Source) {
 			return fmt.Sprintf("C16-tree B%d%s", int(rb.Kind()), ctx)
+		}
+		// the same re-parse when the Source arrives one byte at a time
+		if len(rb.Source) < 300 {
+			got1 := oneByteBlocks(rb.Source)
+			if len(got1) != 1 {
+				return fmt.Sprintf("C16-count-onebyte B%d%s got %d", int(rb.Kind()), ctx, len(got1))
+			}
+			(&cm.InlineParser{ReferenceMatcher: refs}).Rewrite(got1[0])
+			var c strings.Builder
+			dumpNode(&c, got1[0].Source, got1[0].AsNode())
+			if a.String() != c.String() {
+				return fmt.Sprintf("C16-tree-onebyte B%d%s", int(rb.Kind()), ctx)
+			}
 		}
 	}
 	return ""
